@@ -139,6 +139,17 @@ def _measured_names(sub):
     return out
 
 
+def _all_key_names(items):
+    """every key name measured anywhere in ``items`` (after the nested sub-circuits' own maps)"""
+    out = set()
+    for it in items:
+        if it["k"] == "m":
+            out.add(it["key"])
+        elif it["k"] == "sub":
+            out |= {it["kmap"].get(k, k) for k in _all_key_names(it["body"])}
+    return out
+
+
 def _has_m(items):
     return any(it["k"] == "m" or (it["k"] == "sub" and _has_m(it["body"])) for it in items)
 
@@ -159,6 +170,10 @@ def _sub(draw, n, depth, measure, visible, symbolic):
     inv = {v: k for k, v in kmap.items()}
     vis_in = [inv.get(v, v) for v in visible if v not in kmap or v in inv]
     body = draw(_body(n, depth, measure, vis_in, symbolic))
+    if kmap and set(kmap.values()) & _all_key_names(body):
+        # the map would merge two keys of the body: CircuitOperation.with_measurement_key_mapping documents a ValueError for
+        # that (and an outer map reaches nested sub-circuits lazily) - outside the domain, so the map is dropped
+        kmap = {}
     has_m = _has_measure(body)
     # negative repetitions only for measurement-free bodies (the inverse needs a unitary body)
     reps = draw(st.sampled_from([1, 1, 2, 2, 3, 0] + ([] if has_m else [-1, -2])))
@@ -260,10 +275,9 @@ def _build_sub(sub, qs):
         elif s == "k" and sub["kmap"]:
             try:
                 op = op.with_measurement_key_mapping(dict(sub["kmap"]))
-            except ValueError as e:
-                if "Collision in measurement key map" in str(e):
-                    raise Reject("documented ValueError: key map merges two keys")
-                raise
+            except ValueError:
+                # documented: "ValueError: The remapped operation has a different number of measurement keys"
+                raise Reject("documented ValueError of with_measurement_key_mapping")
         elif s == "p" and params:
             op = op.with_params(params)
         elif s == "r":
@@ -794,7 +808,10 @@ def _documented_rejections(oracle):
         try:
             return oracle(r)
         except ValueError as e:
-            if "Collision in measurement key map" in str(e):
+            import traceback
+
+            # judged by where it was raised, not by the wording of the message
+            if any(fr.name == "with_measurement_key_mapping" for fr in traceback.extract_tb(e.__traceback__)):
                 raise Reject("documented ValueError: key map merges two keys of a nested sub-circuit")
             raise
 
